@@ -592,7 +592,7 @@ pub struct FStrings {
 }
 impl FStrings {
     pub fn new(t: Tier) -> FStrings {
-        FStrings { segs: segments(), maxlen: t.pick(2, 3) }
+        FStrings { segs: segments(), maxlen: t.pick(2, 4) }
     }
     pub fn size(&self) -> u64 {
         (1..=self.maxlen).map(|l| (self.segs.len() as u64).pow(l)).sum::<u64>() * 2
